@@ -3,6 +3,7 @@
 //   (0 nx dx x0 rot pol sel pts)                      -> (nrows ncols rows apex)  ProjMatrix on a MeshETurbo
 //   (1 ndim apices meshes pts)                        -> (nrows ncols rows)       ProjMatrix on a MeshEStandard
 //   (2 mesh cov v dest)                               -> (n S lambda coeffs free cs training Q diagfree diagcs ... addToDest of both forms)
+//   (4 nx dx x0 rot pol sel pts)                      -> (-1) when resetFromTurbo fails | (napices nmeshes (turbo rows) (standard rows))
 //   (3 mesh cov pts z var ptsout)                     -> solves through Cholesky / conjugate gradient, kriging both ways
 // mesh = (0 nx dx x0 rot pol sel) | (1 ndim apices meshes);  cov = (param sill ranges angles)
 #include "sx.hpp"
@@ -137,6 +138,22 @@ static std::string run(const Sx& c) {
     Db* db = makeDb(c[4], mesh->getNDim());
     ProjMatrix P(db, mesh);
     o << "(" << projOut(P) << ")";
+    delete db; delete mesh;
+  } else if (kind == 4) {
+    // MeshEStandard::resetFromTurbo on a fresh object, then the projection of the same samples on both meshings
+    MeshETurbo* mesh = makeTurbo(c, 1);
+    if (!mesh) return "(-997 2)";
+    int ndim = mesh->getNDim();
+    Db* db = makeDb(c[7], ndim);
+    MeshEStandard ms;
+    bool thrown = false;
+    try { if (ms.resetFromTurbo(*mesh, false) != 0) thrown = true; } catch (...) { thrown = true; }
+    if (thrown) o << "(-1)";
+    else {
+      ProjMatrix P(db, mesh);
+      ProjMatrix P2(db, &ms);
+      o << "(" << ms.getNApices() << " " << ms.getNMeshes() << " (" << projOut(P) << ") (" << projOut(P2) << "))";
+    }
     delete db; delete mesh;
   } else if (kind == 2) {
     AMesh* mesh = makeMesh(c[1]);
